@@ -34,6 +34,20 @@ def exc_site(exc):
     return 'outside-stdnum:%s' % type(exc).__name__
 
 
+GENERIC_FILES = ('stdnum/luhn.py', 'stdnum/verhoeff.py', 'stdnum/damm.py', 'stdnum/iso7064/')
+
+
+def exc_owner_files(exc):
+    """relative files of all stdnum frames of the traceback, generic algorithm modules excluded"""
+    out = []
+    for fr in traceback.extract_tb(exc.__traceback__):
+        if os.path.abspath(fr.filename).startswith(_REPO_STDNUM):
+            rel = os.path.relpath(fr.filename, common.REPO)
+            if not rel.startswith(GENERIC_FILES) and rel not in out:
+                out.append(rel)
+    return out
+
+
 def call(f, *a, **k):
     """like common.outcome, but also returns the raising site for exceptions:
     ('ok', value, None) | ('verr', class name, site) | ('exc', class name, site)"""
@@ -41,9 +55,9 @@ def call(f, *a, **k):
     try:
         return ('ok', f(*a, **k), None)
     except VE as e:
-        return ('verr', type(e).__name__, exc_site(e))
+        return ('verr', type(e).__name__, exc_site(e), exc_owner_files(e))
     except Exception as e:   # noqa: B902
-        return ('exc', type(e).__name__, exc_site(e))
+        return ('exc', type(e).__name__, exc_site(e), exc_owner_files(e))
 
 
 def fmt_outcome(o):
@@ -167,6 +181,8 @@ def cli(modglobals):
     tier = sys.argv[1] if len(sys.argv) > 1 else common.tier()
     t = common.Timer()
     res = modglobals['search'](common.seed(), tier)
-    res = dict(res, failing=res['failing'][:50], seconds=t.s())
+    tm = os.times()
+    res = dict(res, failing=res['failing'][:50], seconds=t.s(),
+               cpu_seconds=round(tm.user + tm.system + tm.children_user + tm.children_system, 1))
     json.dump(res, sys.stdout, indent=1, sort_keys=True, default=str)
     sys.stdout.write('\n')
